@@ -232,6 +232,12 @@ func (api *HTTP) DispatchPrivate(w http.ResponseWriter, r *http.Request) {
 func (api *HTTP) DispatchPrivateWithoutAuth(w http.ResponseWriter, r *http.Request) {
 	defer exitOnRecover()
 
+	if strings.HasPrefix(r.URL.Path, "/debug/pprof/") {
+		// Registered on the default mux by importing net/http/pprof.
+		http.DefaultServeMux.ServeHTTP(w, r)
+		return
+	}
+
 	switch r.Method {
 	case http.MethodGet:
 		switch r.URL.Path {
